@@ -18,6 +18,53 @@ structure DState where
   st : Option (Store String) := some init     -- none after a model-level panic
   mon : MState := {}                           -- the monitor's bookkeeping (independent of `st`)
 
+def Term.text : Term → String
+  | .fin => "end"
+  | .broke => "broke"
+  | .purged => "purged"
+  | .unknown => "unknown"
+  | .ctx => "ctx"
+  | .error => "error"
+  | .goesOn => "goes-on"
+  | .locked => "locked"
+
+def parseTerm : String → Option Term
+  | "end" => some .fin
+  | "broke" => some .broke
+  | "purged" => some .purged
+  | "unknown" => some .unknown
+  | "ctx" => some .ctx
+  | "error" => some .error
+  | "goes-on" => some .goesOn
+  | "locked" => some .locked
+  | _ => none
+
+def showAObs : AObs → String
+  | .items l => " ".intercalate ("items" :: l)
+  | .purged => "purged"
+  | .unknown => "unknown"
+  | .partialThenPurged => "partial-then-purged"
+  | .partialThenError => "partial-then-error"
+  | .panic => "panic"
+  | .other => "other"
+
+def parseAObs : List String → AObs
+  | ["purged"] => .purged
+  | ["unknown"] => .unknown
+  | ["partial-then-purged"] => .partialThenPurged
+  | ["partial-then-error"] => .partialThenError
+  | ["panic"] => .panic
+  | "items" :: l => .items l
+  | _ => .other
+
+/-- Split a token list at the separator tokens `/`. -/
+def splitSlash : List String → List (List String)
+  | [] => [[]]
+  | t :: ts =>
+    match splitSlash ts with
+    | [] => [[t]]
+    | seg :: segs => if t = "/" then [] :: seg :: segs else (t :: seg) :: segs
+
 def showObs : Obs → String
   | .ok => "ok"
   | .err => "err"
@@ -30,6 +77,8 @@ def showObs : Obs → String
   | .num n => s!"num {n}"
   | .stat n m r => s!"stat {n} {m} {r}"
   | .consistent => "consistent"
+  | .iter t items nested =>
+    " ".intercalate (["it", t.text] ++ items ++ (nested.map fun a => "/ " ++ showAObs a))
   | .other s => s
 
 def parseObs (impl : String) : Obs :=
@@ -49,6 +98,10 @@ def parseObs (impl : String) : Obs :=
     | some n, some m, some r => .stat n m r
     | _, _, _ => .other impl
   | "items" :: l => .items l
+  | "it" :: t :: rest =>
+    match parseTerm t, splitSlash rest with
+    | some t, items :: nested => .iter t items (nested.map parseAObs)
+    | _, _ => .other impl
   | _ => .other impl
 
 def parseOp (toks : List String) : Option (Op String) :=
@@ -61,8 +114,31 @@ def parseOp (toks : List String) : Option (Op String) :=
   | ["maxbytes"] => some .maxBytes
   | _ => none
 
+def parseAt (pre s : String) : Option Nat :=
+  if s.startsWith pre then (s.drop pre.length).toNat? else none
+
+def parseCtxMode (s : String) : Option CtxMode :=
+  if s = "live" then some .live
+  else match parseAt "cancel@" s, parseAt "deadline@" s with
+    | some c, _ => some (.cancel c)
+    | _, some c => some (.deadline c)
+    | _, _ => none
+
+def parseStop (s : String) : Option (Option Nat) :=
+  if s = "drain" then some none else (parseAt "stop@" s).map some
+
+/-- One script entry `<pt>:<op>:<args>`; the point only schedules the harness. -/
+def parseEntry (tok : String) : Option (Op String) :=
+  match tok.splitOn ":" with
+  | pt :: rest => if pt.toNat?.isSome then parseOp rest else none
+  | [] => none
+
 def parseRec (toks : List String) : Option Rec :=
   match toks with
+  | "iter" :: a :: b :: i :: cm :: stop :: script =>
+    match parseInt? i, parseCtxMode cm, parseStop stop, script.mapM parseEntry with
+    | some i, some cm, some stop, some script => some (.iter (a, b) i cm stop script)
+    | _, _, _, _ => none
   | ["concurrent-accounting"] => some .concurrent
   | ["stat"] => some .stat
   | ["afteri", a, b, i, _k, a2, b2, p] =>
@@ -79,8 +155,12 @@ def Clause.text : Clause → String
   | .afterPurgedNothing => "after_refines_spec: the purge error although no payload lies after the index (nothing can have been evicted)"
   | .bytesBound => "bytes_bound: retained bytes exceed max by more than the latest item"
   | .badStat => "bad-stat"
-  | .concurrent => "accounting: nBytes differs from the retained data after concurrent use"
+  | .concurrent => "concurrent use: nBytes differs from the retained data, or a stream only one goroutine appends to was not replayed exactly (or the purge error) under concurrent use"
   | .panicked => "no_panic: an exported method of the store panicked"
+  | .iterShort => "after_iteration_complete_or_error: the After iterator ended WITHOUT an error after yielding only a proper prefix of the payloads after the index (a partial sequence)"
+  | .ctxErrLive => "after_iteration_complete_or_error: the After iterator yielded a context error although its context was not done"
+  | .iterLocked => "iterator_snapshot: the After iterator delivers while holding the store's lock (a call from inside the iteration would deadlock)"
+  | .badIter => "bad-iter"
 
 /-- Run-time self-check of the string layer: the model's observation must survive rendering and parsing. -/
 def selfCheck (m : Obs) : Option String :=
